@@ -42,6 +42,8 @@ def _pairings(spec, n, k):
         out.append("syndrome")
     if k <= 10:
         out.append("bruteforce")
+    if k <= 7:
+        out.append("bruteforce_ondemand")  # the non-default precompute_codebook=False path
     if f == "rm":
         out += ["rm_majority", "rm_inverse"]
     if f == "hamming":
@@ -77,7 +79,7 @@ def units(tier, seed):
                 cost = (n / 15) ** 2 * 4
             if dec == "syndrome":
                 cost = 1 + 2 ** max(0, n - k - 6) / 8
-            if dec == "bruteforce":
+            if dec in ("bruteforce", "bruteforce_ondemand"):
                 cost = 1 + 2 ** max(0, k - 6) / 4
             if dec.startswith("rm"):
                 cost = 2 + n / 8
@@ -108,6 +110,8 @@ def _make_decoder(dec, enc):
         return D.SyndromeLookupDecoder(enc)
     if dec == "bruteforce":
         return D.BruteForceMLDecoder(enc)
+    if dec == "bruteforce_ondemand":
+        return D.BruteForceMLDecoder(enc, precompute_codebook=False)
     if dec == "bm":
         return D.BerlekampMasseyDecoder(enc)
     if dec == "rm_majority":
@@ -129,7 +133,7 @@ def _make_decoder(dec, enc):
     raise ValueError(dec)
 
 
-COMPLETE = {"syndrome", "bruteforce", "rm_inverse"}
+COMPLETE = {"syndrome", "bruteforce", "bruteforce_ondemand", "rm_inverse"}
 
 
 def _patterns(rng, n, t, budget):
@@ -245,11 +249,18 @@ def run_unit(ctx, u):
     rng.shuffle(cases)
     cases = cases[: budget * 2]
     words = [encode_ref(m) ^ e for m, e in cases]
-    B = 7  # batch rows: position in batch varies, neighbours are different cases
+    # batch rows: position in batch varies, neighbours are different cases; batch sizes vary from 1 to a few hundred
+    # (a decoder that works through a large batch in slices must not lose the tail)
     fails = 0
-    for s in range(0, len(cases), B):
-        chunk = cases[s : s + B]
-        wchunk = words[s : s + B]
+    bounds, pos, bi = [], 0, 0
+    while pos < len(cases):
+        B = (7, 1, 45, 2, 203, 7, 7, 64)[bi % 8]
+        bounds.append((pos, min(len(cases), pos + B)))
+        pos += B
+        bi += 1
+    for s, s_end in bounds:
+        chunk = cases[s:s_end]
+        wchunk = words[s:s_end]
         try:
             out = run_decoder(wchunk)
         except Exception as e:  # noqa: BLE001
@@ -287,7 +298,7 @@ def run_unit(ctx, u):
         ctx.violation(f"{nm}|bounded-distance:message(1-D)|raised:{type(e).__name__}", spec=spec, error=str(e)[:300])
 
     # ------------------------------------------------------------ return_errors consistency
-    if dec in ("syndrome", "bruteforce", "bm", "rm_majority"):
+    if dec in ("syndrome", "bruteforce", "bruteforce_ondemand", "bm", "rm_majority"):
         try:
             sel = list(range(min(5, len(words))))
             d_out, e_out = run_decoder([words[i] for i in sel], return_errors=True)
